@@ -8,8 +8,9 @@ JSON trees travel as S-expressions: `z` (null) `t` `f` `(n <int>)` `(r <hex toke
 
 * `c19.cfg (req <json> (bg <hex>…) (br <hex>…))` — `bg`/`br`: the glob patterns / regular expressions
   the real libraries reject. Answer: `err <class>` or
-  `ok <hex of serialised text> <same|differs|reject:<class>> <in|out>`
-  (model round trip `deserializeConfig (serializeConfig c)` against `c`; membership in H₁₉ = `lossless`).
+  `ok <hex of serialised text> <same|differs|reject:<class>> <in|out> <wf|not-wf>`
+  (model round trip `deserializeConfig (serializeConfig c)` against `c`; membership in H₁₉ = `lossless`;
+  `configWF`, the other hypothesis of `roundtrip_partial`).
 * `c19.names` — rule names of the model's table, space separated.
 * `c19.schema` — `rule:key:kind` triples, space separated.
 -/
@@ -53,7 +54,8 @@ def handleCfg (s : Sexp) : Option String :=
       let rt := match deserializeConfig ext out with
         | .error e => "reject:" ++ e
         | .ok c' => if c' = c then "same" else "differs"
-      pure ("ok " ++ bytesToHex (strToBytes (render out)) ++ " " ++ rt ++ " " ++ (if lossless c then "in" else "out"))
+      pure ("ok " ++ bytesToHex (strToBytes (render out)) ++ " " ++ rt ++ " " ++ (if lossless c then "in" else "out")
+        ++ " " ++ (if configWF ext c then "wf" else "not-wf"))
   | _ => none
 
 private def kindName : PKind → String
